@@ -148,3 +148,55 @@ func c20BlankCancel(c *Ctx, r *RNG, n int) {
 		res.Case(fmt.Sprintf("cancel|%d|%d|%d|%d|%d", before, a0, a2, a3, b1), true, cs)
 	}
 }
+
+// ---------- the same source object set on a Blank again ----------
+//
+// SetSource(s) asks s for its value NOW and reports it; that s is already the Blank's inner source is no reason to
+// skip either step (a static-looking source may read a file, a map, a field that changed in between).
+
+type c20GMutable struct{ a int }
+
+func (s *c20GMutable) Value(_ context.Context, t *dials.Type) (reflect.Value, error) {
+	v := reflect.New(t.Type()).Elem()
+	a := s.a
+	v.Field(0).Set(reflect.ValueOf(&a))
+	return v, nil
+}
+
+func c20BlankSameSource(c *Ctx, r *RNG, n int) {
+	res := c.Res
+	for i := 0; i < n; i++ {
+		k := 2 + r.Intn(4)
+		vals := make([]int, k)
+		for j := range vals {
+			vals[j] = 1000*(j+1) + r.Intn(1000)
+		}
+		cs := map[string]any{"stream": "the same source object set on a Blank repeatedly, its content changing in between", "values": vals}
+		ctx, cancel := context.WithCancel(context.Background())
+		b := &sourcewrap.Blank{}
+		d, err := dials.Config(ctx, &c20GCfg{A: 1}, b)
+		if err != nil {
+			res.Add(Finding{Kind: "violation", What: "Config with a Blank failed: " + err.Error(), Case: cs})
+			cancel()
+			continue
+		}
+		src := &c20GMutable{}
+		for j, v := range vals {
+			src.a = v
+			sc, c1 := context.WithTimeout(ctx, 5*time.Second)
+			err := b.SetSource(sc, src)
+			c1()
+			if err != nil {
+				res.Add(Finding{Kind: "violation", What: fmt.Sprintf("SetSource #%d of the same source object failed: %v", j+1, err), Case: cs})
+				break
+			}
+			if got := d.View().A; got != v {
+				res.Add(Finding{Kind: "violation", What: fmt.Sprintf("SetSource #%d (same source object, new content) returned nil, but View() shows %d; the source's value is %d", j+1, got, v), Case: cs})
+				break
+			}
+		}
+		cancel()
+		res.Count("blank.same-source-again")
+		res.Case(fmt.Sprint("same|", vals), true, cs)
+	}
+}
